@@ -8,7 +8,13 @@ want = set(base["stable_pass"])
 env = dict(os.environ, GOFLAGS="-mod=mod", GOPROXY="off", GOSUMDB="off", GOTOOLCHAIN="local")
 lock = open("/tmp/repo-tests.lock", "w")
 fcntl.flock(lock, fcntl.LOCK_EX)
+def untracked():
+    return set(subprocess.run(["git", "-C", repo, "ls-files", "--others", "--exclude-standard", "--directory"], stdout=subprocess.PIPE, text=True).stdout.split("\n")) - {""}
+before = untracked()
 p = subprocess.run(["go", "test", "-json", "-vet=off", "-count=1", "-timeout", "25m", "./..."], cwd=repo, env=env, stdout=subprocess.PIPE, stderr=subprocess.STDOUT, text=True)
+# the suite's set-up copies fixtures into <pkg>/testcase and some packages do not remove them: take away what this run left
+for f in sorted(untracked() - before):
+    subprocess.run(["rm", "-rf", os.path.join(repo, f)])
 res = {}
 for l in p.stdout.split("\n"):
     try:
